@@ -2,6 +2,7 @@
 package c16
 
 import (
+	"io"
 	"bytes"
 	"errors"
 	"fmt"
@@ -24,7 +25,7 @@ type faultyWriter struct {
 	buf     bytes.Buffer
 	writes  int
 	failAt  int // -1 = never
-	mode    int // 0: accept 0 bytes, 1: accept 1 byte, 2: accept len-1 bytes
+	mode    int // accept = mode%4: 0 bytes, 1 byte, len-1 bytes, all len bytes (a non-nil error with n == len(p) is legal for an io.Writer)
 	failed  bool
 	lastLen int
 	// transient: only write failAt fails; later writes succeed again (a connection that hit a deadline once)
@@ -41,11 +42,13 @@ func (w *faultyWriter) Write(p []byte) (int, error) {
 	if idx == w.failAt {
 		w.failed = true
 		n := 0
-		switch w.mode % 3 {
+		switch w.mode % 4 {
 		case 1:
 			n = 1
 		case 2:
 			n = len(p) - 1
+		case 3:
+			n = len(p)
 		}
 		if n > len(p) {
 			n = len(p)
@@ -59,6 +62,34 @@ func (w *faultyWriter) Write(p []byte) (int, error) {
 	}
 	w.buf.Write(p)
 	return len(p), nil
+}
+
+// richWriter is the same sink seen through a type that also offers the optional methods code likes to probe a
+// writer for (Flush, Close, WriteString, Sync); none of them fails and none of them may change what the caller
+// is told about a failed Write.
+type richWriter struct {
+	*faultyWriter
+	flushes int
+}
+
+func (w *richWriter) Flush() error { w.flushes++; return nil }
+func (w *richWriter) Sync() error  { return nil }
+func (w *richWriter) Close() error { return nil }
+func (w *richWriter) WriteString(s string) (int, error) {
+	return w.faultyWriter.Write([]byte(s))
+}
+
+// numModes: modes 0..7 = accept kind (mode%4) × {persistent, transient}; modes 8 and 9 = accept 0 bytes,
+// persistent / transient, through a richWriter.
+const numModes = 10
+
+func newFaulty(k, mode int) (*faultyWriter, io.Writer) {
+	if mode >= 8 {
+		f := &faultyWriter{failAt: k, mode: 0, transient: mode == 9}
+		return f, &richWriter{faultyWriter: f}
+	}
+	f := &faultyWriter{failAt: k, mode: mode % 4, transient: mode >= 4}
+	return f, f
 }
 
 type config struct {
@@ -137,7 +168,7 @@ func runHistory(c *fw.Ctx, cf config, h []int) {
 	}
 	hdrLen := cp.HeaderEnd
 	for k := 0; k < total; k++ {
-		for mode := 0; mode < 6; mode++ {
+		for mode := 0; mode < numModes; mode++ {
 			c.Eval(1)
 			c.Nontrivial(fmt.Sprintf("%s/%s/%d/%v/%d/%d", cf.k.Name, cf.codec, cf.bs, h, k, mode))
 			oneFault(c, cf, h, k, mode, cleanOut, hdrLen, writeOfCall, desc, locus)
@@ -153,12 +184,12 @@ func writeRole(k int) string {
 }
 
 func oneFault(c *fw.Ctx, cf config, h []int, k, mode int, cleanOut []byte, hdrLen int, writeOfCall []int, desc, locus string) {
-	fw_ := &faultyWriter{failAt: k, mode: mode, transient: mode >= 3}
+	fw_, sink := newFaulty(k, mode)
 	detail := map[string]interface{}{"type": cf.k.Name, "codec": cf.codec, "blocksize": cf.bs, "history": encdrv.HistString(cf.k, h), "fail_write": k, "mode": mode}
 	d2 := fmt.Sprintf("%s failing write #%d (%s) mode %d", desc, k, writeRole(k), mode)
 	role := writeRole(k)
 	c.Guard(locus+"|"+role, d2, detail, func() {
-		e, err := encdrv.New(cf.k, fw_, cf.codec, cf.bs)
+		e, err := encdrv.New(cf.k, sink, cf.codec, cf.bs)
 		if k == 0 {
 			if err == nil {
 				c.Violation("missing-error|"+locus+"|header", "NewEncoderFor returned nil although the header write failed — "+d2, detail)
@@ -233,7 +264,7 @@ func runFileWriter(c *fw.Ctx, codec string, nblocks int) {
 	explore.Sequences(len(payloads), nblocks, func(seq []int) {
 		desc := fmt.Sprintf("FileWriter codec=%s blocks=%v", codec, seq)
 		// clean run
-		run := func(w *faultyWriter, fixed *avro.FileWriter) (errs []error, fwr *avro.FileWriter) {
+		run := func(w io.Writer, fixed *avro.FileWriter) (errs []error, fwr *avro.FileWriter) {
 			fwr = fixed
 			if fwr == nil {
 				var err error
@@ -268,14 +299,14 @@ func runFileWriter(c *fw.Ctx, codec string, nblocks int) {
 			return
 		}
 		for k := 0; k < clean.writes; k++ {
-			for mode := 0; mode < 6; mode++ {
+			for mode := 0; mode < numModes; mode++ {
 				c.Eval(1)
 				c.Nontrivial(fmt.Sprintf("fwriter/%s/%v/%d/%d", codec, seq, k, mode))
-				w := &faultyWriter{failAt: k, mode: mode, transient: mode >= 3}
+				w, sink := newFaulty(k, mode)
 				role := writeRole(k)
 				d2 := fmt.Sprintf("%s failing write #%d (%s) mode %d", desc, k, role, mode)
 				c.Guard(locus+"|"+role, d2, d2, func() {
-					errs, _ := run(w, nil)
+					errs, _ := run(sink, nil)
 					// call index that issues write k: header = call 0 (1 write), block j = call j+1 (4 writes)
 					call := 0
 					if k > 0 {
@@ -322,7 +353,7 @@ func tasks(tier string) []task {
 						runHistory(c, cf, h)
 					})
 				}
-				c.Sample(map[string]interface{}{"type": cf.k.Name, "codec": cf.codec, "blocksize": cf.bs, "first_op": cf.k.OpName(first), "max_history_len": cf.depth, "fault_modes": []string{"accept 0 bytes", "accept 1 byte", "accept len-1 bytes"}})
+				c.Sample(map[string]interface{}{"type": cf.k.Name, "codec": cf.codec, "blocksize": cf.bs, "first_op": cf.k.OpName(first), "max_history_len": cf.depth, "fault_modes": []string{"accept 0 bytes", "accept 1 byte", "accept len-1 bytes", "accept all bytes, still an error", "each persistent or transient", "accept 0 bytes through a writer that also has Flush/Sync/Close/WriteString"}})
 			}})
 		}
 	}
@@ -350,7 +381,7 @@ func init() {
 			if tier == "thorough" {
 				d = 6
 			}
-			return fmt.Sprintf("every call history of the real Encoder[T] up to length %d over {encode(1B), encode(10B), encode(41B), flush} (struct{S string}; block sizes 0, 10, 2^20) and {encode(0B), flush} (struct{}), × {null,deflate,snappy} × every write index k of the fault-free run × failure mode {accept 0, 1, len-1 bytes} + error × {every later write fails too, only this write fails (transient)}; plus FileWriter.WriteHeader/WriteBlock driven directly over every sequence of <=3 (4 thorough) blocks from a 3-payload alphabet; a case is one (history, k, mode) triple; non-trivial = the failing write was reached and the accepted bytes compared with the fault-free run re-keyed to the same sync marker", d)
+			return fmt.Sprintf("every call history of the real Encoder[T] up to length %d over {encode(1B), encode(10B), encode(41B), flush} (struct{S string}; block sizes 0, 10, 2^20) and {encode(0B), flush} (struct{}), × {null,deflate,snappy} × every write index k of the fault-free run × failure mode {accept 0, 1, len-1, len bytes} + error × {every later write fails too, only this write fails (transient)}, and accept-0 × {persistent, transient} through a writer type that additionally has never-failing Flush/Sync/Close/WriteString methods; plus FileWriter.WriteHeader/WriteBlock driven directly over every sequence of <=3 (4 thorough) blocks from a 3-payload alphabet; a case is one (history, k, mode) triple; non-trivial = the failing write was reached and the accepted bytes compared with the fault-free run re-keyed to the same sync marker", d)
 		},
 		Assumptions: []string{
 			"the writer obeys io.Writer: a short write comes with a non-nil error; after the first failure the history stops (behaviour after an error is not specified by the property)",
